@@ -41,6 +41,18 @@ CHECKS = {
  "C12": dict(level="fault_enumeration", technique="exhaustive fault-offset enumeration per generated input: reader failing at every input offset, writer failing at every output offset, short-write patterns; oracle = verdict, preserved error text, document-prefix / byte-prefix relation to the fault-free run",
    text="For every generated valid stream all reader fault offsets 0..=|input| and all writer fault offsets below the output length are enumerated (sampled only above 2 KiB / 1 KiB), for named and detected sources, all targets and drawn read schedules.",
    note="Faulty readers keep failing once they failed. Complete documents are compared, not byte prefixes, for reader faults.", ref="4 C12"),
+ "C13": dict(level="exploration", technique="exhaustive argv enumeration up to a length bound plus random argv (proptest) against a reference model of the command line; real debug/release binaries; stdout pipe, file and pseudo-terminal",
+   text="Every argument vector up to length 2 (quick) / 3 (thorough) over the quantifier's vocabulary is executed and compared with a reference CLI model written from the manual (exit status, which stream carries what, usage text, offending input named, terminal guard); longer vectors are sampled.",
+   note="Unreadable files cannot be produced as root; 'translating nothing' is observed as empty stdout + exit 2.", ref="4 C13"),
+ "C14": dict(level="exploration", technique="property-based testing (proptest) of generated file names / contents / input kinds through the real binaries against reference resolution (-f > extension > detection) and in-process library output",
+   text="Generated combinations of -f, extension spelling and case, content, input kind (mmap file, empty file, FIFO, stdin, '-' positions, '-' twice, directory) and target; stdout and exit status must equal the reference model whose bytes come from the library in the matching supply mode.",
+   note="Relies on C01-C03 for the correctness of the library output it compares with.", ref="4 C14"),
+ "C15": dict(level="fault_enumeration", technique="fault enumeration through the real binaries: one failing input of every failure kind planted at every position of generated input lists (sizes below/around/above the stdout buffer), oracle = stdout starts with the library's translations of the preceding inputs",
+   text="Each generated list of inputs gets one planted failure (position and kind drawn so that all occur); exit status and the prefix relation of stdout are checked against the reference CLI model; success runs must be exact.",
+   note="Outputs below the 8 KiB buffer are the discriminating class (required by the health check).", ref="4 C15"),
+ "C16": dict(level="fault_enumeration", technique="fault enumeration through the real binaries: consumer closes the stdout pipe after k bytes for drawn k over several pipe capacities (4 KiB and 64 KiB pipes), and stdout on /dev/full; inputs sized from the library's output so the outcome is decided by construction",
+   text="The harness is the pipe consumer, so it owns the closing point; wait status must be SIGPIPE with empty stderr for every closing point, target, input route and per-input output size (which decides whether write, write_all or flush meets the error); /dev/full must give exit 1 and an error line.",
+   note="Linux pipe semantics assumed.", ref="4 C16"),
 }
 
 PENDING = {}
